@@ -19,4 +19,19 @@ AsPS == CASE val.t = "str" -> [prim |-> val.s, arr |-> <<>>, obj |-> <<>>]
           [] OTHER -> [prim |-> <<>>, arr |-> <<>>, obj |-> << <<<<97>>, val.m[1].s>> >>]
 ShapeOf == CASE val.t = "str" -> "prim" [] val.t = "arr" -> "arr" [] OTHER -> "obj"
 CoreCarried == (c.shape = ShapeOf /\ Core(c, val)) => ~MustRefuse(c, AsPS)
+
+(* The generalised response rule agrees with the fixed one on the fixed declaration; the    *)
+(* media rule: a carriable value is named again by the implementation's pick, and the       *)
+(* override deviation is observable.                                                        *)
+D1 == [exact |-> {200, 201}, pats |-> {4}, dflt |-> TRUE]
+ConvV(x) == CASE x = "ok200" -> [kind |-> "code", n |-> 200] [] x = "created201" -> [kind |-> "code", n |-> 201]
+              [] x = "pat4XX" -> [kind |-> "pat", n |-> 4] [] OTHER -> [kind |-> "default", n |-> 0]
+Generalises == /\ Carriable(v, k) = CarriableD(D1, ConvV(v), k)
+               /\ ImplRespD(D1, ConvV(v), k) = <<ConvV(ImplResp(v, k)[1]), ImplResp(v, k)[2]>>
+MTs == {<<"application", "json">>, <<"text", "plain">>, <<"image", "png">>, <<"image", "*">>, <<"*", "*">>}
+CTs == {<<"application", "json">>, <<"text", "plain">>, <<"image", "png">>, <<"image", "svg">>, <<"", "">>, <<"image", "*">>}
+MediaRouting == \A D \in SUBSET MTs : \A e \in D : \A ct \in CTs : MediaCarriable(D, e, ct) => ImplPickMT(D, ct) = e
+MediaOverrideSeen == \E D \in SUBSET MTs : \E e \in D : \E ct \in CTs : ~MediaCarriable(D, e, ct) /\ ImplMediaOverride(D, e, ct, "ok", ImplPickMT(D, ct), ct)
+MediaNeverBoth == \A D \in SUBSET MTs : \A ct \in CTs : Cardinality({e \in D : MediaCarriable(D, e, ct)}) <= 1
+ASSUME MediaRouting /\ MediaOverrideSeen /\ MediaNeverBoth
 =============================================================================
